@@ -1,6 +1,6 @@
 """C12 — stores return what was written and report modified times faithfully.   (claimed: proof, PARTIAL)
 
-T2 with the REAL stores in temp directories under /tmp/verif-c11c12 and seeded generators.
+T2 with the REAL stores in temp directories under /tmp/verif-c11c12-<pid> and seeded generators.
 
 PROVED in Lean (Props/C12.lean) and only cross-checked here: newline handling of TextFileStore for the `newline=`
 arguments T1 reads from the source; BinaryFileStore/TouchFileStore; MountedStore; modified times — all on top of the
@@ -16,7 +16,8 @@ What is compared:
   stored, no staging file); empty; ~1 MB.  Encodings None(=locale, utf-8 here)/utf-8/utf-16/latin-1, characters
   restricted to the repertoire.
 * JSON values = None | bool | int | finite float | str | list of JSON values | dict with str keys (tuples, non-str keys,
-  NaN are outside: json turns them into something else by design); picklable objects; bytes; None (touch).
+  NaN, and strings with a high surrogate immediately followed by a low one are outside: json turns them into something
+  else by design - the last one comes back as ONE astral character); picklable objects; bytes; None (touch).
 * equality is type-strict and recursive (1 == 1.0 == True does not count).
 * str and pathlib paths; directly and through two MountedStore subclasses (shutil copies; uberjob._testing's).
 * get_modified_time: None exactly when nothing is stored; over sequences of completing / failing writes (serialiser
@@ -29,7 +30,6 @@ from __future__ import annotations
 import datetime as dt
 import json
 import os
-import pathlib
 import random
 
 from harness.props import _store_common as sc
@@ -42,7 +42,8 @@ ASSUMPTIONS = [
     "PARTIAL: CPython's text codecs (utf-8, utf-16, latin-1), json (dump/load, no carriage return in the output) and "
     "pickle (dump/load) round-trip on their domains - hypotheses of the Lean theorems, validated by the sampled runs only",
     "os.linesep == '\\n' (POSIX); a monotone file-system clock; getmtime reflects the last completed content change",
-    "JSON domain: None | bool | int | finite float | str | list | dict with str keys; equality is type-strict",
+    "JSON domain: None | bool | int | finite float | str without a high surrogate immediately followed by a low one | "
+    "list | dict with str keys; equality is type-strict (json reads an escaped surrogate PAIR back as one astral character)",
 ]
 TRUSTED_EXTRA = ["harness/gen/filestore.py (newline=/encoding= arguments of the stores' open calls)",
                  "harness/props/_store_common.py (generators, strict equality, Recorder)"]
@@ -293,7 +294,7 @@ def explore_values(ctx, rng, stats, violations):
     # documented behaviour OUTSIDE the JSON domain (not claimed, only counted)
     with sc.scratch_dir("c12") as d:
         st = sc.make_store("JsonFileStore", os.path.join(d, "value"))
-        for v in ((1, 2), {1: "a"}, {"t": (1,)}):
+        for v in ((1, 2), {1: "a"}, {"t": (1,)}, "\udbf5\udddd"):
             st.write(v)
             stats["outside_json_domain_changed"] += 0 if strict_eq(st.read(), v) else 1
 
